@@ -59,6 +59,11 @@ func classify(v *report.Violation) {
 		if (v.Kind == "O1-ack-leased-to-other" || v.Kind == "O2-two-bindings") && strings.Contains(v.Detail, "{line take-over earlier: ") {
 			v.Class = classV4Circuit
 		}
+		// ... and the first holder's expired-but-present entry lets it DECLINE the shared address:
+		// the server retires it while the second holder's lease on it lives on and is restated
+		if v.Kind == "O5-declined-reoffered" && strings.Contains(v.Detail, "{declined address was duplicated by a line take-over: ") {
+			v.Class = classV4Circuit
+		}
 		// a client whose circuit-id changed (second relayed REQUEST with another circuit-id) leaves
 		// its old circuit-id index entry behind, pointing at a lease object that is no longer in the
 		// table; a later relayed DISCOVER on the old circuit-id is OFFERed that dead lease's address
